@@ -66,6 +66,16 @@ def template(role, ident, variant="plain"):
                    (f"d{x}_dt", L.bin_("-", L.bin_("*", v("gate"), v(i)), L.bin_("*", v(x), v("y")))),
                    ("dy_dt", L.bin_("-", L.bin_("*", v(p), v(x)), L.bin_("*", L.bin_("*", n("0.75"), v("y")), v("gate2"))))]
         return models.spec([(x, n("1.0")), ("y", n("2.0"))], [(p, n("0.5")), ("q", n("1.5"))], assigns)
+    if variant == "rels":
+        # the identifier as an operand of every kind of relation (Eq, Not Eq, Le, Ge; nested in arithmetic and at top level) and as a
+        # function argument / base of a power
+        names = {"state": "x", "parameter": "p", "intermediate": "i"}
+        names[role] = ident
+        x, p, i = names["state"], names["parameter"], names["intermediate"]
+        assigns = [(i, L.bin_("+", L.cond(L.rel("Eq", v(x), v(p)), n("2"), L.bin_("*", n("0.5"), v(x))), v(p))),
+                   (f"d{x}_dt", L.bin_("-", L.bin_("*", L.cond(("not", L.rel("Eq", v(i), L.bin_("+", v(p), n("2")))), v(i), v("q")), L.call("exp", L.neg(L.call("abs", v(p))))), L.bin_("*", v(x), v("y")))),
+                   ("dy_dt", L.cond(L.rel("Le", v(p), v("y")), L.bin_("-", L.bin_("**", v(x), n("2")), v("y")), L.cond(L.rel("Ge", v(i), v(x)), v(i), L.neg(v("y")))))]
+        return models.spec([(x, n("1.0")), ("y", n("2.0"))], [(p, n("0.5")), ("q", n("1.5"))], assigns)
     if variant == "cond":
         # every assignment is a top-level Conditional (the printers have a dedicated path for `name = Piecewise(...)`)
         names = {"state": "x", "parameter": "p", "intermediate": "i"}
@@ -84,6 +94,23 @@ def template(role, ident, variant="plain"):
     return models.spec([(x, n("1.0")), ("y", n("2.0"))], [(p, n("0.5")), ("q", n("1.5"))], assigns)
 
 
+_recorded = {}
+
+
+def recorded_collisions():
+    """(identifier, role, backend) -> the key under which known_findings.json records that collision (read-only)"""
+    if not _recorded:
+        import json, os
+        root = os.path.dirname(os.path.dirname(os.path.abspath(__file__)))
+        for e in json.load(open(os.path.join(root, "known_findings.json"))):
+            if e.get("property") == ID and e.get("status") == "known":
+                parts = e["key"].split("|")
+                if len(parts) >= 5:
+                    _recorded.setdefault((parts[1], parts[2], parts[3]), e["key"])
+        _recorded[None] = None
+    return _recorded
+
+
 def bounds(tier):
     return {"identifiers": len(alphabet()), "roles": ["state", "parameter", "intermediate"], "backends": ["numpy", "c", "jax"], "functions": list(FUNCS)}
 
@@ -95,6 +122,8 @@ def items(tier):
             its.append({"key": f"{grp}|{ident}|{role}", "kind": "ident", "ident": ident, "role": role, "group": grp, "variant": "plain",
                         "sample": {"identifier": ident, "role": role, "text": models.spec_text(template(role, ident))}})
             if grp in ("py", "c", "cmath", "truefalse", "sympy", "grammar", "gen") or ident in ("t", "e", "E", "I", "S", "N", "O", "Q", "C", "n"):
+                its.append({"key": f"{grp}|{ident}|{role}|rels", "kind": "ident", "ident": ident, "role": role, "group": grp, "variant": "rels",
+                            "sample": {"identifier": ident, "role": role, "variant": "rels", "text": models.spec_text(template(role, ident, "rels"))}})
                 its.append({"key": f"{grp}|{ident}|{role}|cond", "kind": "ident", "ident": ident, "role": role, "group": grp, "variant": "cond",
                             "sample": {"identifier": ident, "role": role, "variant": "cond", "text": models.spec_text(template(role, ident, "cond"))}})
     return its
@@ -169,7 +198,12 @@ def run_item(item):
     accepted = False
     for backend in ("numpy", "c", "jax"):
         def fail(cls, what):
-            res["failures"].append({"finding": f"{ID}|{ident}|{role}|{backend}|{cls}" + ("|cond" if variant == "cond" else ""), "what": f"identifier `{ident}` as {role} ({backend}): {what}", "size": len(ident),
+            fk = f"{ID}|{ident}|{role}|{backend}|{cls}" + ("|" + variant if variant in ("cond", "rels") else "")
+            if variant == "rels":
+                # the recorded finding is the (identifier, role, backend) collision; the `rels` template shows the same collision through
+                # other expressions (possibly as another failure class), so it is reported under the key already on record for that triple
+                fk = recorded_collisions().get((ident, role, backend), fk)
+            res["failures"].append({"finding": fk, "what": f"identifier `{ident}` as {role} ({backend}): {what}", "size": len(ident),
                                     "detail": {"text": text, "backend": backend}})
         try:
             mod = models.build(text, backend, scheme=list(models.SCHEMES), stiff_states=[ref.states[0]])
